@@ -47,6 +47,8 @@ type World struct {
 	fwd           map[*ssa.Function]*fwdInfo
 	phiEnv        map[*ssa.Phi]ssa.Value // path context while enumerating paths
 	phiBusy       map[*ssa.Phi]bool
+	condSubj      ssa.Value                    // set by condAtom: the call result a nil test is about
+	loadEnv       map[*ssa.UnOp]ssa.Value      // value of a load of a multi-store local when the current path executed it
 	memEnv        map[*ssa.Alloc]ssa.Value     // last value stored to a multi-store local on the current path
 	paramEnv      map[*ssa.Parameter]ssa.Value // parameters of inlined callees → caller values
 	callEnv       map[*ssa.Call][]ssa.Value    // inlined calls → the values returned on the current path
